@@ -6,7 +6,10 @@ From VQ Require Import Model.Layout Proofs.LayoutProofs.
 From VQ Require Import Glue.Pin_pat_vq_forward Glue.Pin_pat_vq_split Glue.Pin_pat_vq_decode Glue.Pin_pat_euclid_forward Glue.Pin_pat_cosine_forward Glue.Pin_pat_fsq_forward Glue.Pin_pat_fsq_decode Glue.Pin_pat_lfq_forward Glue.Pin_pat_lfq_decode Glue.Pin_pat_rvq_decode Glue.Pin_pat_simvq_forward.
 From VQ Require Import Model.Einops Glue.EinopsGlueBase Glue.EinopsGlueHeads Glue.EinopsGlueLayout Glue.EinopsGlueScalar.
 From VQ Require Import Proofs.EinopsProofs.
+From VQ Require Import Glue.EinopsGlueMore.
 Import ListNotations.
+
+(* implicit *)
 
 (* implicit *)
 
@@ -403,3 +406,106 @@ Theorem C10_rearrange_injective :
        in_range e (rhs p) o1 -> in_range e (rhs p) o2 -> index_map p e o1 = index_map p e o2 -> o1 = o2.
 Proof. exact (@EinopsProofs.rearrange_injective). Qed.
 Print Assumptions C10_rearrange_injective.
+
+(* implicit *)
+Theorem C10_src_rfsq_in :
+  forall A : Type, @is_cfirst_in A pr_more.pr_more "ResidualFSQ.forward:x" 0.
+Proof. exact (@EinopsGlueMore.einops_rfsq_in). Qed.
+Print Assumptions C10_src_rfsq_in.
+
+(* implicit *)
+Theorem C10_src_simvq_in :
+  forall A : Type, @is_cfirst_in A pr_more.pr_more "SimVQ.forward:x" 0.
+Proof. exact (@EinopsGlueMore.einops_simvq_in). Qed.
+Print Assumptions C10_src_simvq_in.
+
+(* implicit *)
+Theorem C10_src_lq_in :
+  forall A : Type, @is_cfirst_in A pr_more.pr_more "LatentQuantize.forward:z" 0.
+Proof. exact (@EinopsGlueMore.einops_lq_in). Qed.
+Print Assumptions C10_src_lq_in.
+
+(* implicit *)
+Theorem C10_src_fsq_in :
+  forall A : Type, @is_cfirst_in A pr_scalar.pr_scalar "FSQ.forward:z" 0.
+Proof. exact (@EinopsGlueMore.einops_fsq_in). Qed.
+Print Assumptions C10_src_fsq_in.
+
+(* implicit *)
+Theorem C10_src_lfq_in :
+  forall A : Type, @is_cfirst_in A pr_scalar.pr_scalar "LFQ.forward:x" 0.
+Proof. exact (@EinopsGlueMore.einops_lfq_in). Qed.
+Print Assumptions C10_src_lfq_in.
+
+(* implicit *)
+Theorem C10_src_rfsq_out :
+  forall A : Type, @is_cfirst_out A pr_more.pr_more "ResidualFSQ.forward:quantized_out" 0.
+Proof. exact (@EinopsGlueMore.einops_rfsq_out). Qed.
+Print Assumptions C10_src_rfsq_out.
+
+(* implicit *)
+Theorem C10_src_rfsq_idx_out :
+  forall A : Type, @is_cfirst_out A pr_more.pr_more "ResidualFSQ.forward:all_indices" 0.
+Proof. exact (@EinopsGlueMore.einops_rfsq_idx_out). Qed.
+Print Assumptions C10_src_rfsq_idx_out.
+
+(* implicit *)
+Theorem C10_src_simvq_out :
+  forall A : Type, @is_cfirst_out A pr_more.pr_more "SimVQ.forward:quantized" 0.
+Proof. exact (@EinopsGlueMore.einops_simvq_out). Qed.
+Print Assumptions C10_src_simvq_out.
+
+(* implicit *)
+Theorem C10_src_lq_out :
+  forall A : Type, @is_cfirst_out A pr_more.pr_more "LatentQuantize.forward:out" 0.
+Proof. exact (@EinopsGlueMore.einops_lq_out). Qed.
+Print Assumptions C10_src_lq_out.
+
+(* implicit *)
+Theorem C10_src_lq_out2 :
+  forall A : Type, @is_cfirst_out A pr_more.pr_more "LatentQuantize.forward:out" 1.
+Proof. exact (@EinopsGlueMore.einops_lq_out2). Qed.
+Print Assumptions C10_src_lq_out2.
+
+(* implicit *)
+Theorem C10_src_fsq_out :
+  forall A : Type, @is_cfirst_out A pr_scalar.pr_scalar "FSQ.forward:out" 0.
+Proof. exact (@EinopsGlueMore.einops_fsq_out). Qed.
+Print Assumptions C10_src_fsq_out.
+
+(* implicit *)
+Theorem C10_src_lfq_out :
+  forall A : Type, @is_cfirst_out A pr_scalar.pr_scalar "LFQ.forward:x" 3.
+Proof. exact (@EinopsGlueMore.einops_lfq_out). Qed.
+Print Assumptions C10_src_lfq_out.
+
+(* implicit *)
+Theorem C10_src_lq_split :
+  forall A : Type,
+       exists p : pattern,
+         role_pattern pr_more.pr_more "LatentQuantize.forward:z" "rearrange" 1 = @Some pattern p /\
+         wf_rearrange p = true /\
+         (forall (e : env) (X : nat -> nat -> nat -> A) (b n c d : nat),
+          b < e "b" ->
+          n < e "n" ->
+          c < e "c" -> d < e "d" -> @rearr A p e (@of3 A X) [b; n; c; d] = @cb_split A (e "d") X b n c d).
+Proof. exact (@EinopsGlueMore.einops_lq_split). Qed.
+Print Assumptions C10_src_lq_split.
+
+(* implicit *)
+Theorem C10_src_lq_merge :
+  forall A : Type,
+       exists p : pattern,
+         role_pattern pr_more.pr_more "LatentQuantize.forward:codes" "rearrange" 0 = @Some pattern p /\
+         wf_rearrange p = true /\
+         (forall (e : env) (Q : nat -> nat -> nat -> nat -> A) (b n x : nat),
+          b < e "b" ->
+          n < e "n" -> x < e "c" * e "d" -> @rearr A p e (@of4 A Q) [b; n; x] = @cb_merge A (e "d") Q b n x).
+Proof. exact (@EinopsGlueMore.einops_lq_merge). Qed.
+Print Assumptions C10_src_lq_merge.
+
+Theorem C10_src_lq_merge_both_sites :
+  find_role pr_more.pr_more "LatentQuantize.forward:codes" "rearrange" 0 =
+       find_role pr_more.pr_more "LatentQuantize.forward:codes" "rearrange" 1.
+Proof. exact (@EinopsGlueMore.einops_lq_merge2). Qed.
+Print Assumptions C10_src_lq_merge_both_sites.
